@@ -21,7 +21,7 @@ func scalarResult(t types.Type) bool {
 	return ok && b.Info()&(types.IsInteger|types.IsBoolean) != 0
 }
 
-var outRe = regexp.MustCompile(`REPLAY-OUT (\d+) (-?\d+|true|false)`)
+var outRe = regexp.MustCompile(`REPLAY-OUT (\d+) (-?\d+|true|false|B\d+:[0-9a-f]*)`)
 
 func replayPost(l *Loader, fn *ssa.Function, o *Obl, outDir string) ReplayResult {
 	rr := ReplayResult{}
@@ -32,8 +32,8 @@ func replayPost(l *Loader, fn *ssa.Function, o *Obl, outDir string) ReplayResult
 	}
 	res := fn.Signature.Results()
 	for i := 0; i < res.Len(); i++ {
-		if !scalarResult(res.At(i).Type()) {
-			rr.Note = "post replay needs scalar results"
+		if !scalarResult(res.At(i).Type()) && !bytesResult(res.At(i).Type()) {
+			rr.Note = "post replay needs scalar, string or byte-slice results"
 			return rr
 		}
 	}
@@ -102,6 +102,10 @@ func replayPost(l *Loader, fn *ssa.Function, o *Obl, outDir string) ReplayResult
 	}
 	fmt.Fprintf(&sb, "\t%s := %s(%s)\n", strings.Join(rn, ", "), fn.Name(), strings.Join(argn, ", "))
 	for i := 0; i < res.Len(); i++ {
+		if bytesResult(res.At(i).Type()) {
+			fmt.Fprintf(&sb, "\tfmt.Printf(\"REPLAY-OUT %d B%%d:%%x\\n\", len(r%d), []byte(r%d))\n", i, i, i)
+			continue
+		}
 		b := res.At(i).Type().Underlying().(*types.Basic)
 		switch {
 		case b.Info()&types.IsBoolean != 0:
@@ -168,7 +172,9 @@ func replayPost(l *Loader, fn *ssa.Function, o *Obl, outDir string) ReplayResult
 			rt := res.At(i).Type()
 			var v Val
 			txt := ms[i][2]
-			if txt == "true" || txt == "false" {
+			if strings.HasPrefix(txt, "B") {
+				v = observedBytes(st, rt, txt, i)
+			} else if txt == "true" || txt == "false" {
 				v = boolVal(BoolC(txt == "true"))
 				v.T = rt
 			} else {
